@@ -14,7 +14,7 @@ from .common import class_hashes
 # classes whose four interface methods are within the verifier's reach today
 READY = ["Value", "Apply", "Bind", "Switch", "Overloaded", "CaseWhen", "Coalesce", "Iter", "EvaluatableArgs", "EvaluatableKwargs",
          "EvaluatableArguments", "FunctionApplication", "PartialApplication", "PipelineStep", "Pipeline", "Logged", "Computation",
-         "WithOptions", "Cached", "Option", "_AllOptions", "Template"]
+         "WithOptions", "Cached", "Option", "_AllOptions", "Template", "Map"]
 # private helper classes reached only by inlining from the class that builds them (their contract is their body)
 INLINED_ONLY = ["_DependsOn"]
 
@@ -94,6 +94,10 @@ def witness_fn(tier):
 # classes whose interface methods are NOT within the verifier's reach today: a bounded check of the same executable laws on the real
 # code stands in (labelled bounded, never counted as proved)
 BOUNDED = ["Map"]
+# Map's interface laws are proved against the contract of Map._iter; what that contract does not say (the shape of the per-combination expressions,
+# i.e. the C05 refinement) stays a bounded check on the real code
+# (the other native laws keep running on Map recipes as a bounded validation of that contract and of assumption A-map-explain)
+BOUNDED_LAWS = {}
 NATIVE_LAWS = {"L1": "L1", "L2": "L2", "L3": "L3", "L4a": "L4a", "L4t": None, "L5": "L5", "L5b": None, "L5d": "L5d", "L6": "L6", "L6k": "L6k", "L6v": "L6v", "C05": "C05", "L10": None}
 
 
@@ -106,7 +110,7 @@ def bounded_standin(laws, seed, tier):
     for cls in BOUNDED:
         for law in laws:
             nl = NATIVE_LAWS.get(law)
-            if nl is None:
+            if nl is None or (cls in BOUNDED_LAWS and law not in BOUNDED_LAWS[cls]):
                 continue
             w = lawsearch.search(cls, nl, seed, budget)
             out["cases"] += len(lawsearch.RECIPES.get(cls, [])) * (15 + budget)
@@ -143,6 +147,17 @@ def bundle(repo, tier, seed, laws, classes=None, extra_vcs=(), extra_sanity=(), 
                 for m in mm:
                     r["undecided"].append((f"{m[0]}.{m[1]}", [f"ENGINE cross-check mismatch against CPython: {m[3]}"]))
     bs = bounded_standin(laws, seed, tier) if bounded else None
+    if classes is None or "Map" in classes:
+        from . import map_iter
+        from .common import fn_hashes
+        msyn, mund = map_iter.obligations(repo)
+        r["syntactic"] += msyn
+        r["undecided"] += mund
+        mf, mh = fn_hashes(repo, ["labrea.iterable:Map._iter", "labrea.iterable:Map._iterate_over_options", "labrea.iterable:Map._create_option_set"])
+        r["functions"] += mf
+        r["hashes"].update(mh)
+        for law in laws:
+            r["group_hashes"].setdefault("Map._iter:contract", {}).update(mh)
     return {
         "bounded": [{k: v for k, v in bs.items() if k != "witnesses"}] if bs else [], "bounded_witnesses": bs["witnesses"] if bs else [],
         "vcs": list(extra_vcs), "sanity": list(extra_sanity), "results": r["results"], "sanity_results": r["sanity"],
@@ -151,7 +166,9 @@ def bundle(repo, tier, seed, laws, classes=None, extra_vcs=(), extra_sanity=(), 
         "trusted_base": ["interface laws assumed for children (A-ext); OptTheory clauses for confectioner (assumed, bounded-validated)",
                          "region complements of recorded findings: " + ("; ".join(regions) or "none")],
         "assumptions": ["classes under contract: " + ", ".join(classes or READY),
-                        "classes NOT under contract (out of the verifier's reach today): Map (bounded stand-in on the real code, labelled bounded), Namespace, _DatasetClassMeta (no claim)",
+                        "Map: the interface laws are proved against the contract of Map._iter (laws.map_iter_contract; structural obligations Map._iter:contract; assumptions A-pure.ctor, A-map-explain); "
+                        "the shape of the per-combination expressions (C05 refinement of Map) is a bounded check on the real code only",
+                        "classes NOT under contract (out of the verifier's reach today): Namespace, _DatasetClassMeta (no claim)",
                         "private helper classes are verified by inlining only: " + ", ".join(INLINED_ONLY)] + [f"proved outside region: {x}" for x in regions],
         "explanation": explanation,
         "engine_crosscheck": xc,
